@@ -22,7 +22,8 @@ EPOCH = 1700000000.0
 SNI = [None, 'a.example.com', 'b.example.com']
 CCERT = [None, 'client-rsa', 'client-ecdsa']
 MENUS = [None, ['aes128', 'aes128gcm'], ['aes256gcm', 'aes128gcm'], ['chacha20-poly1305'], ['aes128gcm'],
-         ['aes128gcm', 'chacha20-poly1305'], ['aes256', 'aes128'], ['aes128', 'aes128gcm', 'aes256gcm']]
+         ['aes128gcm', 'chacha20-poly1305'], ['aes256', 'aes128'], ['aes128', 'aes128gcm', 'aes256gcm'],
+         ['aes256gcm']]
 VER = {1: (3, 1), 2: (3, 2), 3: (3, 3), 4: (3, 4)}
 
 
@@ -231,6 +232,7 @@ class Live(object):
                     'params': sview[:5],
                     'origin_ccert': pred['origin_ccert'] if pred else sview[4],
                     'inval_c': False, 'inval_s': False, 'inval_s_ticket': False, 'altered': False, 'revived': False,
+                    'rms_altered': False,
                     'key': cfg['keys'][0] if (nt[0] or nt[1]) and cfg['keys'] else None,
                     'issued_q': (self.q // 4) * 4, 'stored_q': self.q if (cfg['usecache'] and v < 4) else None,
                     'sid': bytes(csn.sessionID)})
@@ -349,10 +351,21 @@ class Live(object):
             return
         self.objs[ev['ci']]['session'].serverName = SNI[ev['sni']]
 
+    def dev_rms(self, ev):
+        """deviating client: the PSK binder is made with another secret (garbage binder)"""
+        if ev['ci'] >= len(self.objs):
+            return
+        sess = self.objs[ev['ci']]['session']
+        if sess.resumptionMasterSecret:
+            r = bytearray(sess.resumptionMasterSecret)
+            r[0] ^= 0x5a
+            sess.resumptionMasterSecret = r
+            self.objs[ev['ci']]['rms_altered'] = True
+
     def apply(self, ev):
         return {'conn': self.connect, 'close': self.close, 'tick': self.tick, 'cfg': self.cfg,
                 'tamper': self.tamper, 'forge': self.forge, 'keep': self.dev_keep,
-                'revive': self.dev_revive, 'devsni': self.dev_sni}[ev['e']](ev)
+                'revive': self.dev_revive, 'devsni': self.dev_sni, 'devrms': self.dev_rms}[ev['e']](ev)
 
     # ---------------------------------------------------------------- the property, directly
     def oracle(self, ev, rec, cfg, o):
@@ -407,11 +420,30 @@ class Live(object):
                 cons['sni'] = hello['sni'] == 0 or hello['sni'] == p[3]
                 cons['etm'] = (not p[2]) or hello['etm']
                 cons['ems'] = bool(p[1]) == hello['ems']
+            if v == 4 and offered == 'psk':
+                cons['binder'] = not o['rms_altered']     # RFC 8446 4.2.11.2: a wrong binder MUST abort
             rec['conds'], rec['cons'] = conds, cons
             cls.append(tuple(sorted(k for k, x in conds.items() if not x)))
             cls.append(tuple(sorted(k for k, x in cons.items() if not x)))
         rec['class'] = tuple(cls)
         self.conn_classes.append(rec['class'])
+        if done:
+            # both ends' `resumed` attributes must tell what happened on the wire, resumed or not
+            wire = rec['srv_resumed']
+            if rec['srv_resumed_attr'] != wire:
+                self.flag('server-resumed-attribute-wrong:' + vc,
+                          'connection %d: server connection.resumed=%s although the handshake on the wire was %sa resumption (offered: %s)'
+                          % (rec['ci'], rec['srv_resumed_attr'], '' if wire else 'NOT ', offered), conn=rec['ci'])
+            if not resumed:
+                # declined / nothing offered: the server may only know what was proved on THIS connection
+                proved = ev['ccert'] if cfg['reqcert'] else 0
+                if rec['sview'][4] != proved:
+                    self.flag('unproved-client-identity:%s' % path,
+                              'connection %d was not resumed (%s) but the server session has client identity %r; '
+                              'on this connection the client proved %r'
+                              % (rec['ci'], 'nothing offered' if not offered else
+                                 'offer declined: ' + (','.join(k for k, x in conds.items() if not x) or 'hello/suite mismatch'),
+                                 rec['sview'][4], proved), conn=rec['ci'], conds=conds)
         if resumed:
             if o is None or not offered:
                 self.flag('resumed-without-offer:' + vc, 'connection resumed although no session was offered', conn=rec['ci'])
@@ -440,10 +472,6 @@ class Live(object):
                               conn=rec['ci'], got=sv, want=o['params'])
             if rec['srv_resumed'] != rec['cli_resumed']:
                 self.flag('ends-disagree-on-resumption:' + vc, 'client resumed=%s, server resumed=%s (wire)' % (rec['cli_resumed'], rec['srv_resumed']), conn=rec['ci'])
-            if rec['srv_resumed_attr'] != rec['srv_resumed']:
-                self.flag('server-resumed-attribute-wrong:' + vc,
-                          'server connection.resumed=%s although the ServerHello shows resumption=%s' % (rec['srv_resumed_attr'], rec['srv_resumed']),
-                          conn=rec['ci'])
             return
         # not resumed: the connection must not break, unless a full handshake is impossible anyway
         # or the offer was a genuine session with an inconsistent hello (the server may abort then)
@@ -510,7 +538,8 @@ def gen_conn(rng, live, theme):
           'menu': theme['menu'] if rng.random() < 0.8 else rng.choice([0, 1, 2, 5, 6, 7]),
           'ems': theme['ems'] if rng.random() < 0.85 else (not theme['ems']),
           'etm': theme['etm'] if rng.random() < 0.85 else (not theme['etm']),
-          'sni': theme['sni'], 'ccert': theme['ccert'], 'offer': None}
+          'sni': theme['sni'], 'ccert': theme['ccert'] if rng.random() < 0.8 else rng.choice([0, 0, 1, 2]),
+          'offer': None}
     if live.objs and rng.random() < 0.85:
         ev['offer'] = len(live.objs) - 1 if rng.random() < 0.6 else rng.randrange(len(live.objs))
         o = live.objs[ev['offer']]
@@ -561,8 +590,10 @@ def gen_next(rng, live, theme, keyctr):
         return {'e': 'forge', 'ci': ci, 'which': which, 'n': rng.randrange(1000)}
     if r < 0.95:
         return {'e': 'keep', 'ci': ci}
-    if r < 0.98:
+    if r < 0.975:
         return {'e': 'revive', 'ci': ci}
+    if r < 0.985 and which == 1:
+        return {'e': 'devrms', 'ci': ci}
     return {'e': 'devsni', 'ci': ci, 'sni': rng.choice([0, 1, 2])}
 
 
@@ -654,6 +685,8 @@ def event_lit(ev):
         return 'EDevRevive %d' % ev['ci']
     if e == 'devsni':
         return 'EDevSni %d %d' % (ev['ci'], ev['sni'])
+    if e == 'devrms':
+        return 'EDevRms %d' % ev['ci']
     raise ValueError(e)
 
 
